@@ -34,6 +34,7 @@ ASSUMPTIONS = [
     "defaults are compared after the completion value_from_ast performs (absent input-object fields take the field's own default, a single value at a list type is the one-element list): that completion is coercion's business (ledger H2), not introspection's",
     "generated deprecation reasons are non-empty; the empty reason (ledger I2: Field.deprecated = bool(reason) vs EnumValue.deprecated = reason is not None) is checked by a dedicated oracle (oracle_empty_reason) and corpus/C15/03-empty-reason.json",
     "custom-scalar string defaults that ARE the repr of a finite float or a plain integer text (\"42.42\", \"7\", \"-0\") are printed as number literals on purpose (pinned by tests/test_utilities/test_ast_node_from_value.py); they are checked by the direct oracle only (oracle_numeric_strings), the model stream uses numeric-LOOKING strings that are neither (Python float()/repr are not modelled)",
+    "at a CUSTOM scalar position a reported literal is also accepted when its untyped reading (utilities.untyped_value_from_ast) is the declared value: the library's literal coercion hands a default custom scalar the token text (`2` -> \"2\") and refuses list / object literals at scalar types (coercion is C07's subject)",
     "default values are JSON-like Python values (None/bool/int/float/str/list/dict); floats travel as repr strings",
 ]
 TRUSTED = [
@@ -531,6 +532,9 @@ def cases(ctx):
         for p in sorted(d.glob("*.json")):
             c = json.loads(p.read_text())
             yield ("corpus:" + p.stem,) + load_case(c)
+    for name in sorted(SPECIAL):
+        c = {"mode": "special", "name": name}
+        yield ("special:" + name,) + load_case(c)
     n = ctx.n(8, 60)
     for i in range(n):
         if ctx.time_left() < (20 if ctx.tier == "quick" else 90):
@@ -543,9 +547,44 @@ def cases(ctx):
             yield ("gen:%s" % mode,) + load_case(c)
 
 
+def special_json_defaults():
+    """Ledger I7: dict / list / tuple defaults of a custom JSON-like scalar (top level, in a list type, inside an
+    input-object default and as an input field's own default)."""
+    from py_gql.schema import (Argument, Field, InputField, InputObjectType, Int, ListType, NonNullType, ObjectType,
+                               ScalarType, Schema)
+    js = ScalarType("Json", serialize=lambda v: v, parse=lambda v: v)
+    inp = InputObjectType("JsonIn", [InputField("j", js, default_value={"deep": [{"k": None}, []]}), InputField("n", Int)])
+    return Schema(ObjectType("Query", [Field("search", Int, [
+        Argument("filter", js, default_value={"tags": ["a", "007"], "limit": 10, "on": True, "none": None, "sub": {"x": []}}),
+        Argument("empty", js, default_value={}),
+        Argument("emptyList", NonNullType(js), default_value=[]),
+        Argument("tup", js, default_value=(1, "two")),
+        Argument("many", ListType(js), default_value=[{"a": 1}, ["x"], "s", 2, None]),
+        Argument("obj", inp, default_value={"j": {"a": [1, 2]}, "n": 3}),
+        Argument("objDefault", inp, default_value={"n": 4}),
+    ])]))
+
+
+def special_name_collision():
+    """Ledger I9: Python / GraphQL names of two input fields cross (`type`~kind, `kind`~kind_)."""
+    from py_gql.schema import Argument, Field, InputField, InputObjectType, Int, ObjectType, Schema, String
+    inp = InputObjectType("In", [InputField("type", String, python_name="kind"), InputField("kind", String, python_name="kind_"),
+                                 InputField("plain", Int, default_value=1)])
+    return Schema(ObjectType("Query", [Field("f", Int, [
+        Argument("a", inp, default_value={"kind": "T"}),
+        Argument("b", inp, default_value={"kind_": "K", "plain": 2}),
+        Argument("c", inp, default_value={"kind": "T", "kind_": "K"}),
+    ])]))
+
+
+SPECIAL = {"json-defaults": special_json_defaults, "name-collision": special_name_collision}
+
+
 def load_case(c):
     """case description -> (live schema, case description)"""
     import random
+    if c["mode"] == "special":
+        return SPECIAL[c["name"]](), c
     if c["mode"] == "sdl-text":
         from py_gql import build_schema
         return build_schema(c["sdl"]), c
@@ -660,7 +699,59 @@ def oracle_schema(ctx, label, schema, case, cfgs, model_reqs):
     oracle_disabled(ctx, schema, detail0, cfgs)
     # -- (e) __type(name:) of names in / not in the schema ---------------------------------------
     oracle_type_by_name(ctx, schema, detail0, cfgs)
+    # -- (f) the application's default resolvers do not resolve the introspection types' fields -----
+    oracle_default_resolvers(ctx, schema, base, detail0, cfgs)
     return base
+
+
+def _by_graphql_name(root, ctx__, info, **args):
+    name = info.field_definition.name
+    return root.get(name) if isinstance(root, dict) else getattr(root, name, None)
+
+
+def _dict_only(root, ctx__, info, **args):
+    return root.get(info.field_definition.python_name) if isinstance(root, dict) else None
+
+
+def _constant(root, ctx__, info, **args):
+    return None
+
+
+def oracle_default_resolvers(ctx, schema, base, detail0, cfgs):
+    """Ledger I8. Introspection describes library objects: whatever GLOBAL default resolver (`schema.default_resolver`)
+    or per-type default resolvers the application configured, the standard result is the same."""
+    from py_gql.schema import ObjectType
+    user_objs = [t for t in schema.types.values() if isinstance(t, ObjectType) and not t.name.startswith("__")]
+    saved = schema.default_resolver, [(t, t.default_resolver) for t in user_objs]
+    try:
+        for which, fn in (("by-graphql-name", _by_graphql_name), ("dict-only", _dict_only), ("per-type", _constant)):
+            if which == "per-type":
+                schema.default_resolver = saved[0]
+                for t in user_objs:
+                    t.default_resolver = fn
+            else:
+                schema.default_resolver = fn
+            for cfg in (cfgs[:2] if which == "by-graphql-name" else cfgs[:1]):
+                ctx.count()
+                st, r = L.execute(schema, std_query(), cfg)
+                if st != "ok":
+                    ctx.fail("default-resolver-affects-introspection:%s:raises-%s" % (which, r),
+                             "with a custom %s default resolver the standard introspection query raises %s" % (which, r),
+                             dict(detail0, check="default-resolvers", which=which, config=cfg))
+                elif r.get("errors") or r.get("data") != base:
+                    p = L.first_diff(base, r.get("data")) if r.get("data") else "/"
+                    ctx.fail("default-resolver-affects-introspection:%s:%s" % (which, "errors" if r.get("errors") else L.diff_class(p or "")),
+                             "with a custom %s default resolver the standard introspection result changes (at %s; %d errors)"
+                             % (which, p, len(r.get("errors") or [])),
+                             dict(detail0, check="default-resolvers", which=which, config=cfg, path=p))
+    finally:
+        schema.default_resolver = saved[0]
+        for t, d in saved[1]:
+            t.default_resolver = d
+        try:
+            schema._is_valid = None
+        except Exception:  # noqa
+            pass
 
 
 def oracle_type_by_name(ctx, schema, detail0, cfgs, gone=()):
@@ -822,11 +913,11 @@ def ordinary_selection(schema, with_meta):
 def oracle_disabled(ctx, schema, detail0, cfgs):
     from py_gql.execution.default_resolver import default_resolver
 
-    def resolver(root, c, info, **args):
-        # NB: a schema-wide default resolver is also consulted for the introspection types' plain
-        # attributes (name, description, ...): keep those on the library's default resolver.
+    def resolver(root__, ctx__, info, **args):
+        # (before fix I8 a schema-wide default resolver was also consulted for the introspection types' plain
+        #  attributes; this oracle is about something else, so those stay on the library's default resolver)
         if info.parent_type.name.startswith("__"):
-            return default_resolver(root, c, info, **args)
+            return default_resolver(root__, ctx__, info, **args)
         return world_value(info.field_definition.type)
     saved = schema.default_resolver
     schema.default_resolver = resolver
@@ -942,6 +1033,33 @@ def oracle_empty_reason(ctx):
                          {"check": "empty-reason", "how": how, "member": what})
 
 
+def oracle_null_reason(ctx):
+    """Ledger I10. `@deprecated(reason: null)` is a legal application (reason is a nullable String): the member is
+    deprecated, without a reason — isDeprecated true, deprecationReason null, hidden unless requested."""
+    from py_gql import build_schema
+    q = ('{ q: __type(name: "Query") { fields { name } all: fields(includeDeprecated: true) { name isDeprecated deprecationReason } } '
+         'e: __type(name: "E") { enumValues { name } all: enumValues(includeDeprecated: true) { name isDeprecated deprecationReason } } }')
+    try:
+        schema = build_schema('enum E { A @deprecated(reason: null) B }\ntype Query { a: Int @deprecated(reason: null) b: Int e: E }')
+    except Exception as e:  # noqa
+        ctx.stat("null-reason:not-buildable-" + type(e).__name__)
+        return
+    st, r = L.execute(schema, q, "blocking")
+    ctx.count()
+    d = r.get("data") if st == "ok" else None
+    if not (isinstance(d, dict) and isinstance(d.get("q"), dict) and isinstance(d.get("e"), dict)):
+        return
+    for what, key, vis, allm in (("field", "a", d["q"]["fields"], d["q"]["all"]), ("enum-value", "A", d["e"]["enumValues"], d["e"]["all"])):
+        m = [x for x in allm if x["name"] == key]
+        ok = len(m) == 1 and m[0]["isDeprecated"] is True and m[0]["deprecationReason"] is None and key not in [x["name"] for x in vis]
+        ctx.nontrivial(("null-reason", what))
+        if not ok:
+            ctx.fail("deprecated-flag:null-reason:" + what,
+                     "a %s carrying @deprecated(reason: null) is reported as %r and is %s without includeDeprecated"
+                     % (what, m[0] if m else None, "listed" if key in [x["name"] for x in vis] else "hidden"),
+                     {"check": "null-reason", "member": what})
+
+
 def oracle_directive_locations(ctx):
     """Ledger I5. Every directive location the PARSER accepts in a directive definition (and `Directive(...)`
     accepts in code) must be introspectable: `__schema { directives { locations } }` reports it, nothing raises."""
@@ -1028,6 +1146,7 @@ def oracle_numeric_strings(ctx):
 def run(ctx):
     try:
         oracle_empty_reason(ctx)
+        oracle_null_reason(ctx)
         oracle_directive_locations(ctx)
         oracle_numeric_strings(ctx)
         _run(ctx)
@@ -1073,9 +1192,10 @@ def replay(ctx, data):
         sub = Ctx2(ctx)
         C15_history.one_history(sub, sys.modules[__name__], inp["case"], inp["kind"], inp["hseed"])
         return not any(f["signature"] == data.get("signature") for f in sub.found)
-    if inp.get("check") in ("directive-locations", "numeric-strings"):
+    if inp.get("check") in ("directive-locations", "numeric-strings", "null-reason"):
         sub = Ctx2(ctx)
-        (oracle_directive_locations if inp["check"] == "directive-locations" else oracle_numeric_strings)(sub)
+        {"directive-locations": oracle_directive_locations, "numeric-strings": oracle_numeric_strings,
+         "null-reason": oracle_null_reason}[inp["check"]](sub)
         return not any(f["signature"] == data.get("signature") for f in sub.found)
     if inp.get("check") == "empty-reason":
         sub = Ctx2(ctx)
